@@ -171,5 +171,22 @@ theorem rename_keeps_outside (fs fs' : FS) (a b : APath) (h : renameAbs fs a b =
     subst this
     exact List.mem_map.mpr ⟨e, he, rekey_of_not_prefix hu⟩
 
+/-- the premises of `containment` are satisfiable, and the check really separates inside from outside:
+    with input directory `in` (and a sibling `in2`), `x/../y` is inside, `../in2/y` is not -/
+example :
+    let fs : FS := [⟨["in".toList], 1, .dir, 0⟩, ⟨["in".toList, "a".toList], 2, .file, 1⟩, ⟨["in2".toList], 3, .dir, 0⟩]
+    NoLinks fs ∧
+    contained fs ["in".toList] ⟨false, ["x".toList, dotdot, "y".toList]⟩ = .ok true ∧
+    contained fs ["in".toList] ⟨false, [dotdot, "in2".toList, "y".toList]⟩ = .ok false ∧
+    contained fs ["in".toList] ⟨true, ["in".toList, "y".toList]⟩ = .ok true ∧
+    contained fs ["in".toList] ⟨true, ["etc".toList, "y".toList]⟩ = .ok false := by
+  intro fs
+  have hl : NoLinks fs := by
+    intro e he t
+    simp only [fs, List.mem_cons, List.not_mem_nil, or_false] at he
+    rcases he with rfl | rfl | rfl <;> simp
+  refine ⟨hl, ?_, ?_, ?_, ?_⟩ <;>
+    (unfold contained resolvePath; rw [resolveAux_nolinks hl]; rfl)
+
 end C06
 end Tempren
